@@ -29,7 +29,7 @@ import (
 
 var (
 	c03DirNames  = []string{"a", "b", "ab", ".terraform", "modules", ".git"}
-	c03FileNames = []string{"a.b", "a+b", "x.tf", "aab", "c"}
+	c03FileNames = []string{"a.b", "a+b", "x.tf", "aab", "c", "n\nl"}
 	c03LeafExtra = []string{"a", "b", "ab"}
 )
 
@@ -47,7 +47,7 @@ func c03Universe() []string {
 		dirs, files, leaf := c03DirNames, c03FileNames, c03LeafExtra
 		if c03Small {
 			dirs = []string{"a", "b", ".terraform", "modules", ".git"}
-			files = []string{"a+b", "x.tf", "c", "aab"}
+			files = []string{"a+b", "x.tf", "c", "aab", "n\nl"}
 			leaf = []string{"a", "ab"}
 		}
 		var out []string
@@ -133,6 +133,12 @@ func c03Copy(src, dst string) error {
 			return err
 		}
 		rel, _ := filepath.Rel(src, p)
+		if strings.Contains(rel, "\n") {
+			// the directory hash used by the bundle builder refuses file names
+			// with a newline (a limitation of golang.org/x/mod/sumdb/dirhash),
+			// so such files are not part of the fetched package
+			return nil
+		}
 		t := filepath.Join(dst, rel)
 		if info.IsDir() {
 			return os.MkdirAll(t, 0755)
@@ -413,7 +419,9 @@ func c03Run(env *fw.Env, ruleText string, modes string) fw.Result {
 		}
 		w2 := map[string]bool{}
 		for k := range want {
-			w2[k] = true
+			if !strings.Contains(k, "\n") {
+				w2[k] = true
+			}
 		}
 		if ruleText != "\x00none" && !ref.Excluded(rules, ".terraformignore") {
 			w2[".terraformignore"] = true
